@@ -5,7 +5,7 @@ into every evidence file of the property."""
 GLOBAL_ASSUMPTIONS = [
     'Verus 0.2026.09.13 + bundled Z3, Kani 0.68 / CBMC 6.11, rustc and vstd (model of Vec, slices, Option, ranges, VecDeque) are correct',
     'usize/u8 arithmetic is modelled exactly with the checked (panic-on-overflow) semantics, which is the stricter one; Verus proves for every usize width unless a unit fixes size_of usize (overlaps: 8)',
-    'the extraction drops only: comments, attributes (derive kept for Clone/Copy/PartialEq/Eq/Debug where listed), crate::/super::/self:: path prefixes, pub(..) restrictions; desugarings R1-R3 and the closure annotation are recorded per function under coverage.desugared',
+    'the extraction drops only: comments, attributes (derive kept for Clone/Copy/PartialEq/Eq/Debug where listed), crate::/super::/self:: path prefixes, pub(..) restrictions; desugarings R1-R3, R5-R11 and the closure annotation are recorded per function under coverage.desugared',
     'no unsafe code is in any function under contract',
 ]
 
@@ -24,7 +24,7 @@ PROPS = {
         unverified=[
             'every rule body (match_to_lint / lint of ~290 rules); LintGroup::lint, Document::parse as a whole and its pattern-based passes (contractions, ellipsis, latin), match_quotes, articles_imply_nouns: covered by the bounded RAC stand-ins only',
             'all front-ends that wrap an external parser: Markdown (pulldown-cmark), tree-sitter comment extraction, Typst, HTML, Literate Haskell (bounded stand-ins rac:markdown_tokens, comment_frontends, typst_frontend, lhs_frontend only; HTML and git commit: nothing), git commit parser, javadoc/go/unit comment parsers',
-            'Pattern impls not under contract (assumed to satisfy the trait contract): AnyCapitalization, WordSet, ImpliesQuantity, IsNotTitleCase, SplitCompoundWord, SimilarToPhrase, WhitespacePattern, TokenKindPatternGroup, WordPatternGroup, NaivePatternGroup, WithinEditDistance, the blanket impl for Fn(&Token,&[char])->bool',
+            'Pattern impls not under contract (assumed to satisfy the trait contract): AnyCapitalization, WordSet, ImpliesQuantity, IsNotTitleCase, SplitCompoundWord, TokenKindPatternGroup, WordPatternGroup, NaivePatternGroup, WithinEditDistance, the blanket impl for Fn(&Token,&[char])->bool',
             'polynomial running time (no cost model); only termination of the listed loops is proved',
             'WithinEditDistance::matches calls edit_distance_min_alloc without establishing len <= 254 (thread_local! closure: not extractable) -- defect D5, seen by reading, decided by no obligation',
         ],
@@ -40,7 +40,7 @@ PROPS = {
         kani_thorough=['lexing.whitespace_5', 'lexing.whitespace_8', 'lexing.hostname_4', 'lexing.url_4'],
         rac=['lexers', 'url_scanner', 'document_tiles', 'remove_indices', 'condense_indices', 'markdown_tokens'],
         unverified=[
-            'tiling preservation is PROVED for condense_spaces, condense_dotted_initialisms, condense_number_suffixes (the latter modulo the condense_indices contract: peekable() body, bounded-rac) and, since fix D11, condense_newlines; condense_contractions/ellipsis/latin (thread_local patterns), match_quotes, newlines_to_breaks and Document::parse as a whole are covered by the bounded stand-in rac:document_tiles only',
+            'tiling preservation is PROVED for condense_spaces, condense_dotted_initialisms, condense_number_suffixes (the latter modulo the condense_indices contract: peekable() body, bounded-rac) and, since fix D11, condense_newlines; match_quotes and newlines_to_breaks are PROVED (spans untouched, twins mutual); condense_contractions/ellipsis/latin (condense_pattern over thread_local patterns with an Fn(&mut Token) callback) and Document::parse as a whole are covered by the bounded stand-in rac:document_tiles only',
             'every front-end other than plain English (Markdown byte/char bookkeeping, Mask::parse, CollapseIdentifiers, IsolateEnglish, comment parsers, HTML, Typst, LHS, git commit)',
             'lexical shape of Word tokens (no whitespace inside) and the numeric value of Number tokens (lex_number: str::parse::<f64>)',
             'which Punctuation variant a punctuation token carries (Punctuation::from_char is verified panic-free only)',
